@@ -192,6 +192,14 @@ def async_docs(rng):
         docs.append(((H % "null") + '<state id="s"><onentry><send event="x" delay="%dms" target="%s" uvid="7"/></onentry>'
                      '<transition event="error.communication" target="t"/><transition event="error.execution" target="t"/></state><state id="t"/></scxml>' % (d, tgt),
                      rng.choice(["q,w:300,q,w:100,q", "q,b:400,q,b:100,q"]), "bpe:error."))
+    # <data src> that cannot be fetched: early binding (fails in the first step) and late binding (in a state entered later)
+    for dm in ("lua", "promela"):
+        src = rng.choice(["file:///nonexistent/uv-data.json", "file:///verif/no/such/file.txt", "http://127.0.0.1:1/none"])
+        docs.append(((H % dm) + '<datamodel><data id="Var0" expr="0"/><data id="D1" src="%s"/><data id="Var1" expr="0"/></datamodel>'
+                     '<state id="s"><transition event="error" target="t"/></state><state id="t"/></scxml>' % src, "q,w:50,q", "bpe:error."))
+        docs.append((H.replace(">", ' binding="late">') % dm + '<datamodel><data id="Var0" expr="0"/></datamodel><state id="s"><transition event="go" target="u"/></state>'
+                     '<state id="u"><datamodel><data id="D1" src="%s"/><data id="Var1" expr="0"/></datamodel><transition event="error" target="t"/></state><state id="t"/></scxml>' % src,
+                     "q,e:go,q,w:50,q", "bpe:error."))
     for obj in ("{code = 1}", "nil", "42", "setmetatable({}, {__tostring = function() return 'x' end})", "function() end", "true"):
         docs.append(((H % "lua") + '<state id="s"><onentry><script uvid="7">error(%s)</script><raise event="after" uvid="8"/></onentry>'
                      '<transition event="error.execution" target="t"/></state><state id="t"/></scxml>' % charts.esc(obj), "q", "bpe:error.execution"))
